@@ -203,13 +203,16 @@ def run_vectors(ctx, vecs, rng, perm_cap):
 # ----------------------------------------------------------------------------
 # binding B
 # ----------------------------------------------------------------------------
-D, S, SW, SE = 8, 1000, 100, 100
+D, S, SW, SE, SM = 8, 1000, 100, 100, 1000
 
 
 def random_rows(rng):
     ncol = rng.choice([3, 4])
     n = rng.randint(2, 24)
-    narrow = rng.random() < 0.7
+    u = rng.random()
+    narrow = u < 0.5
+    bands = u >= 0.75            # narrow channels plus a few broad bands (4 columns)
+    nbroad = rng.randint(1, 3)
     while True:
         # narrow 4-column rows: even lattice points, so that the bins (width 1/8 um) do not touch
         ks = rng.sample(range(8, 129, 2) if (narrow and ncol == 4) else range(8, 129), n)
@@ -217,10 +220,30 @@ def random_rows(rng):
         if ncol == 4 or 3 * s[0] > s[1]:
             break
     rows = []
-    for k in ks:
-        j = 1 if narrow else rng.randint(1, min(16, 2 * k - 1))
+    broad = set(rng.sample(range(n), min(nbroad, n))) if bands else ()
+    for i, k in enumerate(ks):
+        if narrow:
+            j = 1
+        elif bands:
+            j = rng.randint(min(8, 2 * k - 1), min(16, 2 * k - 1)) if i in broad else rng.randint(1, 2)
+        else:
+            j = rng.randint(1, min(16, 2 * k - 1))
         rows.append([k, rng.randint(0, 1000), rng.randint(1, 100), j])
     return rows, ncol
+
+
+def random_native(rows, rng):
+    """Contiguous native cells with integer cm-1 edges covering every bin of the (4-column) rows, random
+    non-uniform sizes, random integer values 0..20.  The hull comes from the rows, not from the code."""
+    wn = [Fraction(10000 * D, r[0]) for r in rows]
+    hw = [Fraction(10000 * D * r[3], 2 * r[0] * r[0]) for r in rows]
+    a = max(0, int(min(c - h for c, h in zip(wn, hw))) - 3)
+    b = int(max(c + h for c, h in zip(wn, hw))) + 4
+    inner = set(rng.sample(range(a + 1, b), min(rng.randint(15, 45), b - a - 1)))
+    inner |= {int(c) for c in wn if rng.random() < 0.5 and a < int(c) < b}
+    ed = [a] + sorted(inner) + [b]
+    nat = [[x, y] for x, y in zip(ed[:-1], ed[1:])]
+    return nat, [rng.randint(0, 20) for _ in nat]
 
 
 def exact_load(rows, ncol):
@@ -256,7 +279,7 @@ def sc(x, s_):
     return int(round(x * s_))
 
 
-def make_event(rows, ncol, source, tmpdir):
+def make_event(rows, ncol, source, tmpdir, native=None):
     obs = load(source, real_rows(rows, ncol, D, 1), tmpdir)
     o = observe(obs)
     wA, wB, eA, eB = exact_load(rows, ncol)
@@ -274,9 +297,17 @@ def make_event(rows, ncol, source, tmpdir):
         out = b.bindown(c[p], f[p], grid_width=w[p])
         mb, chk = [sc(x, S) for x in out[1]], True
 
+    nat, nf, mbin = [], [], []
+    if native is not None and ncol == 4:
+        nat, nf = native
+        na = np.array(nat, float)
+        p = np.random.RandomState(len(nat)).permutation(len(nat))
+        mo = obs.create_binner().bindown(((na[:, 0] + na[:, 1]) / 2)[p], np.array(nf, float)[p], grid_width=(na[:, 1] - na[:, 0])[p])
+        mbin = [sc(x, SM) for x in mo[1]]
+
     def ints(a):
         return [int(x) if float(x) == int(x) else -1 for x in a]
-    return dict(rows=rows, ncol=ncol, D=D, S=S, Sw=SW, Se=SE, tol=1,
+    return dict(rows=rows, ncol=ncol, D=D, S=S, Sw=SW, Se=SE, tol=1, Sm=SM, chkmodel=bool(nat), nat=nat, nf=nf, mbin=mbin,
                 mwn=[sc(x, S) for x in o['wn']], val=ints(o['val']), err=ints(o['err']),
                 mwid=[sc(x, SW) for x in o['wid']], med=[sc(x, SE) for x in o['ed']],
                 reading='A' if isA else ('B' if isB else 'none'), readA=bool(isA),
@@ -290,15 +321,16 @@ def run_traces(ctx, nloads):
         for i in range(nloads):
             rows, ncol = random_rows(rng)
             source = rng.choice(['array', 'text'] + (['hdf5'] if ncol == 4 else []))
+            native = random_native(rows, rng) if ncol == 4 else None
             try:
-                ev = make_event(rows, ncol, source, tmpdir)
+                ev = make_event(rows, ncol, source, tmpdir, native)
             except Exception as exn:
                 ctx.verdict('trace_load', False, cls='%s:%dcol:exception' % (source, ncol), detail=repr(exn),
                             vector=dict(trace=True, rows=rows, ncol=ncol, source=source))
                 continue
             ev['id'] = len(events)
             events.append(ev)
-            metas.append(dict(trace=True, rows=rows, ncol=ncol, source=source))
+            metas.append(dict(trace=True, rows=rows, ncol=ncol, source=source, native=native))
     if len(events) < 10:
         raise Machinery('too few trace events')
     slim = [{k: v for k, v in e.items() if k != 'reading'} for e in events]
@@ -312,12 +344,15 @@ def run_traces(ctx, nloads):
     for e, m in zip(events, metas):
         nalign += bool(e['chkalign'])
         cls = '%s:%dcol:trace' % (m['source'], m['ncol'])
-        ctx.verdict('trace_load', e['id'] not in badids, cls=cls, detail='TLC rejected the loaded object %r' % {k: e[k] for k in ('mwn', 'val', 'err', 'mwid', 'med', 'bgrid', 'bwid', 'mb')}, vector=m)
+        ctx.verdict('trace_load', e['id'] not in badids, cls=cls, detail='TLC rejected the loaded object %r' % {k: e[k] for k in ('mwn', 'val', 'err', 'mwid', 'med', 'bgrid', 'bwid', 'mb', 'mbin')}, vector=m)
         # widths / edges must follow one of the two consistent readings (classified with exact fractions;
         # reading A is re-validated by TLC in the event)
         ctx.verdict('trace_widths_edges_reading', e['reading'] != 'none', cls=cls, detail='widths/edges follow neither reading', vector=m)
     ctx.add_sample(dict(trace_event=slim[0]))
-    ctx.note('trace: %d loads (%d with the binned piecewise-constant model aligned check)' % (len(events), nalign))
+    nmodel = sum(bool(e['chkmodel']) for e in events)
+    ctx.note('trace: %d loads (%d with the binned piecewise-constant model aligned check, %d with a random native model binned over each element\'s own bin)' % (len(events), nalign, nmodel))
+    if nmodel < len(events) // 10 and not badids:
+        raise Machinery('too few native-model checks in the trace (%d of %d)' % (nmodel, len(events)))
     if nalign < len(events) // 10 and not badids:
         raise Machinery('too few aligned-model checks in the trace (%d of %d)' % (nalign, len(events)))
     # canary: swap two observed values of an accepted 4-column event with an aligned check
@@ -330,8 +365,15 @@ def run_traces(ctx, nloads):
     c2 = dict(good[0]); c2['mwid'] = list(reversed(c2['mwid'])); c2['bwid'] = c2['mwid']; c2['id'] = 900002
     if c2['mwid'] == good[0]['mwid']:
         c2['mwid'] = [x + 5 for x in c2['mwid']]; c2['bwid'] = c2['mwid']
-    ok2, bad2, _ = validate_trace('Trace_Observation', 'Trace_Observation.cfg', [c1, c2])
-    if ok2 or {b['id'] for b in bad2} != {900001, 900002}:
+    canaries = [c1, c2]
+    gm = [e for e in slim if e['id'] not in badids and e['chkmodel']]
+    if gm:       # one binned model value off by 5/1000
+        c3 = dict(gm[len(gm) // 2]); c3['mbin'] = [c3['mbin'][0] + 5] + c3['mbin'][1:]; c3['id'] = 900003
+        canaries.append(c3)
+    elif not badids:
+        raise Machinery('no event available for the native-model canary')
+    ok2, bad2, _ = validate_trace('Trace_Observation', 'Trace_Observation.cfg', canaries)
+    if ok2 or {b['id'] for b in bad2} != {c['id'] for c in canaries}:
         raise Machinery('canary accepted: trace validation is vacuous (%r)' % (bad2,))
 
 
@@ -341,11 +383,14 @@ def run(ctx):
     ctx.bounds = dict(tier=t,
                       exhaustive='2-3 rows over wavelengths {4,6,9,12} (quick) / {4,5,6,8,9,12} (thorough), values/errors/widths in {1,2}, all row permutations, 3 and 4 columns; 4 (5) generic rows',
                       vectors='2-4 (2-5) generic rows over 6 (7) wavelengths, every permutation (<=24; 5 rows: 40 sampled), sources array/text/hdf5, unit scales 1 and 4',
-                      traces='2-24 rows, wavelengths k/8 um (k in 8..128), 3/4 columns, random order, three sources')
+                      traces='2-24 rows, wavelengths k/8 um (k in 8..128), 3/4 columns, random order, three sources; 4 columns: widths 1/8 um (disjoint), random 1/8..2 um, or narrow channels + 1-3 broad bands; random native model of 16-70 contiguous cells with integer cm-1 edges',
+                      model_vectors='3 (3-4) rows over wavelengths {4,5,6,8,9,12}, widths {1,5} um in all combinations (4 columns) / derived (3 columns), native cells 40/80/120 cm-1, every row order, three sources',
+                      obsbin_exhaustive='2-3 (2-4) rows over {4,5,10,20} ({4,5,10,20,25}) um, widths {1,7} um, FluxBinner window algorithm on the 12.5 (0.5) cm-1 lattice')
     ctx.assumptions = ['distinct positive wavelengths, >=2 rows, 4 columns: 0 < width < 2 wl; 3 columns: lowest mirrored edge positive',
                        'widths / edges: either consistent reading accepted (wavelength-space or wavenumber-space)',
                        'HDF5 written by the harness in the layout taurex.taurex.main() writes (Output/Spectra/instrument_*)',
-                       'TLC + CommunityModules Json/IOUtils; float64 evaluation of 10000/wl within 1e-12']
+                       'TLC + CommunityModules Json/IOUtils; float64 evaluation of 10000/wl within 1e-12',
+                       'model binned to the observation: the native model tiles an interval containing every observation bin (partial coverage is property C05); binned values compared at 1e-9 relative (vectors) / 2e-3 absolute on values 0..20 (traces)']
     for c in ('4col', '3col'):
         ctx.check_spec('exhaustive-' + c, 'MC_Observation', 'MC_Observation_%s_%s.cfg' % (c, t), need_actions=('LoadRows',) if c == '4col' and q else ())
     for c in ('4gen', '3gen'):
@@ -354,6 +399,11 @@ def run(ctx):
     ctx.expect_refuted('refute-sortcol0', 'MC_Observation', 'MC_Observation_ref_sortcol0.cfg', 'PermutationInvariant')
     ctx.expect_refuted('refute-widthsrev', 'MC_Observation', 'MC_Observation_ref_widthsrev.cfg', 'RowsTogether')
     ctx.expect_refuted('refute-notsquared', 'MC_Observation', 'MC_Observation_ref_notsquared.cfg', 'RowsTogether')
+    # last sentence: model binned to the observation = overlap-weighted mean over each element's own bin
+    ctx.check_spec('obsbin-4col', 'MC_ObsBin', 'MC_ObsBin_4col_%s.cfg' % t)
+    ctx.expect_refuted('refute-resumestart', 'MC_ObsBin', 'MC_ObsBin_ref_resumestart.cfg', 'AlgRefinesObs')
+    if not q:
+        ctx.expect_refuted('refute-resumestop', 'MC_ObsBin', 'MC_ObsBin_ref_resumestop.cfg', 'AlgRefinesObs')
     rng = random.Random(ctx.seed * 131 + 17)
     sfx = '' if q else '_thorough'
     nv = 0
@@ -366,6 +416,20 @@ def run(ctx):
         run_vectors(ctx, vecs, rng, 24 if q else 40)
         ctx.add_sample(dict(vector=vecs[len(vecs) // 2]))
     ctx.note('%d exported vectors replayed in every row order through array / text / hdf5 sources' % nv)
+    nm = 0
+    for c in ('4col', '3col'):
+        res = ctx.check_spec('export-model-' + c, 'MC_ObsBin', 'EX_ObsBin_%s%s.cfg' % (c, sfx), workers=1)
+        vecs = res.tagged('VEC')
+        if not vecs:
+            raise Machinery('no model vectors exported for ' + c)
+        if c == '4col':      # every geometry class of the bins must be exercised
+            missing = [g for g in GEO if not any(v['geoA'][g] for v in vecs)]
+            if missing or not any(v['geoA']['lownonasc'] and v['geoA']['upnonasc'] for v in vecs):
+                raise Machinery('exported observations lack bin geometry classes %r' % (missing,))
+        nm += len(vecs)
+        run_vectors(ctx, vecs, rng, 24 if q else 40)
+        ctx.add_sample(dict(vector={k: vecs[len(vecs) // 2][k] for k in ('rows', 'ncol', 'nat', 'f', 'modA', 'geoA')}))
+    ctx.note('%d exported (rows, native model, exact binned model) vectors: narrow channels and broad bands, every row order' % nm)
     run_traces(ctx, 150 if q else 1500)
 
 
@@ -376,7 +440,8 @@ def replay(ctx, violations):
             if not vec:
                 continue
             if vec.get('trace'):
-                ev = make_event(vec['rows'], vec['ncol'], vec['source'], tmpdir)
+                nv = vec.get('native')
+                ev = make_event(vec['rows'], vec['ncol'], vec['source'], tmpdir, tuple(nv) if nv else None)
                 ev['id'] = 0
                 reading = ev.pop('reading')
                 ok, bad, _ = validate_trace('Trace_Observation', 'Trace_Observation.cfg', [ev])
